@@ -4,7 +4,7 @@ import z3 as _z3
 from z3 import (And, Or, Not, Implies, If, BoolVal, IntVal, RealVal, Const, substitute, ForAll, Exists, Select, Store, Int,
                 IntSort, RealSort, BoolSort, is_true, is_false, simplify, ToReal, Function, MultiPattern, K)
 from .types import *
-from .engine import (FreshConst, FRESH_LOG, Engine, Unsupported, PV, PRef, PTup, PNone, PMaybe, State, Obl, Outcome, str_const, Truthy, IntAsVal,
+from .engine import (FreshConst, FRESH_LOG, Engine, Unsupported, PPool, PV, PRef, PTup, PNone, PMaybe, State, Obl, Outcome, str_const, Truthy, IntAsVal,
                      FunctionSpec)
 
 RealAsVal = Function('RealAsVal', RealSort(), Val)
@@ -422,7 +422,8 @@ class FullEngine(Engine):
             if not ok: raise Unsupported('no overload of %s fits the call %s' % (name, ast.unparse(c)[:60]))
             return self.call_contract(ok[0], c, None, st)
         if name in self.spec.opaque_functions:
-            args = [self.expr(a, st) for a in c.args] + [self.expr(kw.value, st) for kw in c.keywords if kw.arg]
+            # (a comprehension handed to a library function needs a declared type: contract `locals` entry '$<function>.arg<i>')
+            args = [self.expr(a, st, hint=(self.spec.locals or {}).get('$%s.arg%d' % (name, i))) for i, a in enumerate(c.args)] + [self.expr(kw.value, st) for kw in c.keywords if kw.arg]
             return self.opq(st, 'fn_%s_%s' % (name, '_'.join(kw.arg for kw in c.keywords if kw.arg)), [a if self.is_opq(a) else PV(OPQ, self.coerce(st, a, OPQ)) for a in args])
         raise Unsupported('call of ' + name)
 
@@ -491,9 +492,17 @@ class FullEngine(Engine):
             return self.call_super(c, f.attr, st)
         if isinstance(f.value, ast.Name) and f.value.id not in st.env and (f.value.id + '.' + f.attr) in self.specs:
             return self.call_contract(self.specs[f.value.id + '.' + f.attr], c, None, st)          # e.g. float.is_integer(v)
+        if isinstance(f.value, ast.Name) and isinstance(st.env.get(f.value.id), PPool):
+            # ASSUMED contract of multiprocessing (option pool_model): pool.apply_async(g, (a, b, ...)) hands back a result object whose .get() is g(a, b, ...).  The
+            # result object is modelled by that value itself, the call is checked against g's contract (g must be `deterministic`: its result is a function of its arguments).
+            if f.attr == 'apply_async' and len(c.args) == 2 and isinstance(c.args[0], ast.Name) and isinstance(c.args[1], ast.Tuple) and not c.keywords:
+                return self.call_name(ast.Call(func=c.args[0], args=list(c.args[1].elts), keywords=[]), c.args[0].id, st, hint)
+            raise Unsupported('pool method ' + ast.unparse(c)[:60])
         recv = self.expr(f.value, st)
         if isinstance(recv, PRef): self.need_not_none(st, recv, ast.unparse(f.value))
         m = f.attr
+        if self.spec.pool_model and m == 'get' and not c.args and not c.keywords and isinstance(recv, (PV, PTup)) and not self.is_opq(recv) and not isinstance(getattr(recv, 't', None), TDict):
+            return recv          # AsyncResult.get()  (see apply_async above)
         if self.is_opq(recv):
             args = [self.expr(a, st) for a in c.args] + [self.expr(kw.value, st) for kw in c.keywords if kw.arg]
             return self.opq(st, 'meth_%s_%s' % (m, '_'.join(kw.arg for kw in c.keywords if kw.arg)), [recv] + [a if self.is_opq(a) else PV(OPQ, self.coerce(st, a, OPQ)) for a in args])
@@ -622,6 +631,11 @@ class FullEngine(Engine):
             if n not in new and isinstance(args.get(n), PRef): new[n] = old[n]
         rt = C.returns
         res = FreshConst(rt.sort(), 'r') if rt is not None else None
+        if rt is not None and C.deterministic:
+            # ASSUMED (contract option `deterministic`): the result is a function of the arguments -- two calls with equal arguments give equal results
+            if C.modifies: raise Unsupported('deterministic callee that modifies its arguments')
+            ats = [old[n] for n in names if old.get(n) is not None]
+            res = Function('res_' + ''.join(ch if ch.isalnum() else '_' for ch in C.name), *([a.sort() for a in ats] + [rt.sort()]))(*ats)
         import inspect
         ens = C.ensures(old, new, res, None) if len(inspect.signature(C.ensures).parameters) >= 4 else C.ensures(old, new, res)     # (a caller never sees the callee's locals)
         for label, g in ens: st.pc.append(g)
